@@ -17,8 +17,12 @@ Check(e) ==
   CASE e.a = "hdr" -> TRUE
     [] e.a = "intent" -> TRUE
     [] e.a = "honest" ->      \* the undisturbed run completes everywhere with valid outputs
-         /\ SeqSet(e.completed) = SeqSet(e.parties)
-         /\ OutputsValid([completed |-> e.completed, out |-> e.out])
+         \* an honest OT / VOLE run may be refused only on the small exact field, where a sampled scalar, a hash-to-group value or
+         \* a programmed element is zero / the identity with probability 1/q per element (thousands of elements per run) and the
+         \* validation rules refuse those by design; on the 61-bit field every honest run must complete
+         IF "rejected" \in DOMAIN e /\ e.rejected THEN ~e.out.big
+         ELSE /\ SeqSet(e.completed) = SeqSet(e.parties)
+              /\ OutputsValid([completed |-> e.completed, out |-> e.out])
     [] e.a = "tamper" -> TamperOK(e)
     [] OTHER -> FALSE
 CaseOK == l <= Len(Trace) => Check(Trace[l])
